@@ -45,22 +45,18 @@ Str(n)  == V("str", n)          \* 1 = "a", 2 = "b", 19 = "s"
 NULL    == V("null", 0)
 ABS     == V("abs", 0)          \* the field is not present
 EMISS   == V("emiss", 0)        \* error("missing") as a value
-Nullish(v) == v.t \in {"null", "abs", "emiss"}
+Nullish(v) == v.t = "null" \/ v.t = "abs" \/ v.t = "emiss"
 
 Fields == {"k", "g", "u", "x", "y", "z", "a", "_"}
-Row0   == [f \in Fields |-> ABS]
+Row0   == TLCEval([f \in Fields |-> ABS])
 Get(r, f) == IF r[f].t = "abs" THEN EMISS ELSE r[f]
 
 Sign(d) == IF d < 0 THEN -1 ELSE IF d > 0 THEN 1 ELSE 0
-Rank(v) == IF v.t \in {"int", "uint"} THEN 0 ELSE 1     \* numbers sort before strings
 
-\* runtime/sam/expr/sort.go compareValues(a, b, nullsMax) (missing as null)
-CmpV(a, b, nmax) ==
-  IF Nullish(a) /\ Nullish(b) THEN 0
-  ELSE IF Nullish(a) THEN (IF nmax THEN 1 ELSE -1)
-  ELSE IF Nullish(b) THEN (IF nmax THEN -1 ELSE 1)
-  ELSE IF Rank(a) # Rank(b) THEN Sign(Rank(a) - Rank(b))
-  ELSE Sign(a.n - b.n)
+\* runtime/sam/expr/sort.go compareValues(a, b, nullsMax) (missing as null):
+\* nulls tie and are largest (nullsMax) or smallest; numbers sort before strings.
+Code(v, nmax) == IF Nullish(v) THEN (IF nmax THEN 9999 ELSE -9999) ELSE IF v.t = "str" THEN 1000 + v.n ELSE v.n
+CmpV(a, b, nmax) == Sign(Code(a, nmax) - Code(b, nmax))
 
 \* A comparator: key field, direction (operands swapped for desc, as
 \* Comparator.Compare does), nullsMax, and tb = TRUE for the lake's
@@ -85,12 +81,18 @@ Cmp(c, x, y) ==
 SortedBy(s, c) == \A i \in 1..Len(s) - 1 : Cmp(c, s[i], s[i+1]) <= 0
 Distinct(s, c) == \A i \in 1..Len(s) : \A j \in i+1..Len(s) : Cmp(c, s[i], s[j]) # 0
 
-\* stable sort without recursion: the rank of element i is the number of
-\* elements that must precede it
-StableSort(s, c) ==
-  LET n == Len(s)
-      rank == [i \in 1..n |-> Cardinality({j \in 1..n : Cmp(c, s[j], s[i]) < 0 \/ (Cmp(c, s[j], s[i]) = 0 /\ j < i)}) + 1]
-  IN [p \in 1..n |-> s[CHOOSE i \in 1..n : rank[i] = p]]
+\* TLC keeps [i \in S |-> e] lazy and re-evaluates e at every application; E
+\* forces the explicit function / sequence once.
+E(x) == TLCEval(x)
+
+RECURSIVE InsertBefore(_, _, _)
+InsertBefore(x, t, c) ==
+  IF t = <<>> THEN <<x>>
+  ELSE IF Cmp(c, x, t[1]) <= 0 THEN <<x>> \o t
+  ELSE <<t[1]>> \o InsertBefore(x, Tail(t), c)
+RECURSIVE StableSortR(_, _)
+StableSortR(s, c) == IF s = <<>> THEN <<>> ELSE InsertBefore(s[1], StableSortR(Tail(s), c), c)
+StableSort(s, c) == StableSortR(E(s), c)
 
 RECURSIVE Concat(_)
 Concat(ss) == IF ss = <<>> THEN <<>> ELSE ss[1] \o Concat(Tail(ss))
@@ -115,16 +117,16 @@ Offsets(lay, acc) == IF lay = <<>> THEN <<>> ELSE <<acc>> \o Offsets(Tail(lay), 
 \* rows of every object, each object sorted by the pool's ImportComparator
 ObjRows(lay, desc) ==
   LET off == Offsets(lay, 0)
-  IN [i \in 1..Len(lay) |-> StableSort([j \in 1..Len(lay[i]) |-> MkRow(lay[i][j], off[i] + j)], PoolC(desc))]
+  IN E([i \in 1..Len(lay) |-> StableSort(E([j \in 1..Len(lay[i]) |-> MkRow(lay[i][j], off[i] + j)]), PoolC(desc))])
 
 \* lake/data/writer.go: Min/Max are the first/last key (missing as null), swapped
 \* for desc pools: Min <= Max in the ascending nulls-max order.
 KeyOf(r) == IF Nullish(r["k"]) THEN NULL ELSE r["k"]
 Metas(lay, desc) ==
   LET rows == ObjRows(lay, desc)
-  IN [i \in 1..Len(lay) |->
+  IN E([i \in 1..Len(lay) |->
         LET f == KeyOf(rows[i][1])  l == KeyOf(rows[i][Len(rows[i])])
-        IN IF desc THEN [mn |-> l, mx |-> f] ELSE [mn |-> f, mx |-> l]]
+        IN IF desc THEN [mn |-> l, mx |-> f] ELSE [mn |-> f, mx |-> l]])
 
 Curated == <<
   << <<K1>>, <<K2>>, <<K3>> >>,                      \* disjoint
@@ -339,7 +341,7 @@ RECURSIVE LeadFilters(_)
 LeadFilters(ops) == IF ops # <<>> /\ Kind(ops[1]) = "filter" THEN <<ops[1]>> \o LeadFilters(Tail(ops)) ELSE <<>>
 
 PO(op, part) == [op |-> op, part |-> part]          \* part: "" | "out" | "in"
-Plain(ops) == [i \in 1..Len(ops) |-> PO(ops[i], "")]
+Plain(ops) == E([i \in 1..Len(ops) |-> PO(ops[i], "")])
 
 \* optimizer.go optimizeSourcePaths + Parallelize + parallelizeSeqScan + one
 \* liftIntoParPaths at the scatter (optimizeParallels visits each position once).
@@ -375,9 +377,9 @@ PlanOf(prog, desc) ==
 
 PlanText(pl) ==
   [slicer |-> pl.slicer, filter |-> pl.filter,
-   legs |-> [i \in 1..Len(pl.legs) |-> pl.legs[i].op \o (IF pl.legs[i].part = "" THEN "" ELSE ":" \o pl.legs[i].part)],
+   legs |-> E([i \in 1..Len(pl.legs) |-> pl.legs[i].op \o (IF pl.legs[i].part = "" THEN "" ELSE ":" \o pl.legs[i].part)]),
    fan |-> pl.fan, mkey |-> pl.mc.f, mdesc |-> pl.mc.desc,
-   tail |-> [i \in 1..Len(pl.tail) |-> pl.tail[i].op \o (IF pl.tail[i].part = "" THEN "" ELSE ":" \o pl.tail[i].part)]]
+   tail |-> E([i \in 1..Len(pl.tail) |-> pl.tail[i].op \o (IF pl.tail[i].part = "" THEN "" ELSE ":" \o pl.tail[i].part)])]
 
 \* ================================================================ semantics
 \* A stream is [s, ex, by, det]: a representative sequence; ex = the program
@@ -429,7 +431,7 @@ SortInts(s) == IF s = <<>> THEN <<>> ELSE InsertInt(s[1], SortInts(Tail(s)))
 
 AggKind(op) == CASE op \in {"AG", "AK", "A0s"} -> "count" [] op \in {"XG", "XK", "X0s"} -> "sum"
                  [] op = "VG" -> "avg" [] op = "LG" -> "collect" [] op = "UK" -> "union"
-Ints(rows, f) == LET sel == SelectSeq(rows, LAMBDA r : Get(r, f).t = "int") IN [i \in 1..Len(sel) |-> Get(sel[i], f).n]
+Ints(rows, f) == LET sel == SelectSeq(rows, LAMBDA r : Get(r, f).t = "int") IN E([i \in 1..Len(sel) |-> Get(sel[i], f).n])
 AggOf(op, rows) ==
   CASE AggKind(op) = "count"   -> U(Len(rows))
     [] AggKind(op) = "sum"     -> LET xs == Ints(rows, "x") IN IF xs = <<>> THEN NULL ELSE I(SumSeq(xs))
@@ -438,11 +440,11 @@ AggOf(op, rows) ==
     [] AggKind(op) = "union"   -> V("set", {Get(rows[i], "g") : i \in 1..Len(rows)} \ {EMISS, NULL})
 \* agg.Function.ConsumeAsPartial over the partial values of one group
 AggCombine(op, parts) ==
-  CASE AggKind(op) = "count"   -> U(SumSeq([i \in 1..Len(parts) |-> parts[i].n]))
+  CASE AggKind(op) = "count"   -> U(SumSeq(E([i \in 1..Len(parts) |-> parts[i].n])))
     [] AggKind(op) = "sum"     -> LET xs == SelectSeq(parts, LAMBDA p : p.t = "int")
-                                  IN IF xs = <<>> THEN NULL ELSE I(SumSeq([i \in 1..Len(xs) |-> xs[i].n]))
-    [] AggKind(op) = "avg"     -> V("avg", <<SumSeq([i \in 1..Len(parts) |-> parts[i].n[1]]), SumSeq([i \in 1..Len(parts) |-> parts[i].n[2]])>>)
-    [] AggKind(op) = "collect" -> V("bag", SortInts(Concat([i \in 1..Len(parts) |-> parts[i].n])))
+                                  IN IF xs = <<>> THEN NULL ELSE I(SumSeq(E([i \in 1..Len(xs) |-> xs[i].n])))
+    [] AggKind(op) = "avg"     -> V("avg", <<SumSeq(E([i \in 1..Len(parts) |-> parts[i].n[1]])), SumSeq(E([i \in 1..Len(parts) |-> parts[i].n[2]]))>>)
+    [] AggKind(op) = "collect" -> V("bag", SortInts(Concat(E([i \in 1..Len(parts) |-> parts[i].n]))))
     [] AggKind(op) = "union"   -> V("set", UNION {parts[i].n : i \in 1..Len(parts)})
 
 \* distinct group keys in order of first appearance
@@ -460,26 +462,26 @@ Summarize(o, st) ==
       rows == st.s
       out  == IF kf = "" THEN
                  IF rows = <<>> THEN <<>>
-                 ELSE <<[Row0 EXCEPT !["a"] = IF o.part = "in" THEN AggCombine(o.op, [i \in 1..Len(rows) |-> rows[i]["a"]])
+                 ELSE <<[Row0 EXCEPT !["a"] = IF o.part = "in" THEN AggCombine(o.op, E([i \in 1..Len(rows) |-> rows[i]["a"]]))
                                                 ELSE AggOf(o.op, rows)]>>
               ELSE LET ks == FirstKeys(rows, kf, {})
-                   IN [i \in 1..Len(ks) |->
+                   IN E([i \in 1..Len(ks) |->
                          LET grp == SelectSeq(rows, LAMBDA r : Get(r, kf) = ks[i])
                          IN [Row0 EXCEPT ![kf] = ks[i],
-                                         !["a"] = IF o.part = "in" THEN AggCombine(o.op, [j \in 1..Len(grp) |-> grp[j]["a"]])
-                                                  ELSE AggOf(o.op, grp)]]
+                                         !["a"] = IF o.part = "in" THEN AggCombine(o.op, E([j \in 1..Len(grp) |-> grp[j]["a"]]))
+                                                  ELSE AggOf(o.op, grp)]])
       streaming == kf # "" /\ st.by # NoCmp /\ st.by.f = kf
       byk  == IF streaming THEN [st.by EXCEPT !.tb = FALSE] ELSE NoCmp
       srt  == IF streaming THEN StableSort(out, byk) ELSE out
   IN Stream(srt, streaming /\ Distinct(srt, byk), byk, st.det)
 
-Uniq(s) == SelectSeq([i \in 1..Len(s) |-> [r |-> s[i], keep |-> i = 1 \/ s[i] # s[i-1]]], LAMBDA e : e.keep)
+Uniq(s) == SelectSeq(E([i \in 1..Len(s) |-> [r |-> s[i], keep |-> i = 1 \/ s[i] # s[i-1]]]), LAMBDA e : e.keep)
 
 ApplyOp(o, st) ==
   LET op == o.op  s == st.s IN
   CASE Kind(op) = "filter" -> Stream(SelectSeq(s, LAMBDA r : PredT(op, r)), st.ex, st.by, st.det)
     [] Kind(op) \in {"cut", "put", "rename", "drop", "yield"} ->
-         Stream([i \in 1..Len(s) |-> MapRow(op, s[i])], st.ex, MapBy(op, st.by), st.det)
+         Stream(E([i \in 1..Len(s) |-> MapRow(op, s[i])]), st.ex, MapBy(op, st.by), st.det)
     [] Kind(op) = "sort" ->
          LET c == SortC(SortKeyOf(op).f, SortKeyOf(op).desc)  t == StableSort(s, c)
          IN Stream(t, Distinct(t, c), c, st.det)
@@ -492,7 +494,7 @@ ApplyOp(o, st) ==
              cutok == st.ex \/ m <= n \/ (st.by # NoCmp /\ Cmp(st.by, s[m-n], s[m-n+1]) # 0)
          IN Stream(SubSeq(s, IF m <= n THEN 1 ELSE m - n + 1, m), st.ex, st.by, st.det /\ cutok)
     [] Kind(op) = "uniq" ->
-         LET t == Uniq(s) IN Stream([i \in 1..Len(t) |-> t[i].r], st.ex, st.by, st.det /\ st.ex)
+         LET t == Uniq(s) IN Stream(E([i \in 1..Len(t) |-> t[i].r]), st.ex, st.by, st.det /\ st.ex)
     [] Kind(op) = "summarize" -> Summarize(o, st)
 
 RECURSIVE ApplyOps(_, _)
@@ -501,11 +503,11 @@ ApplyOps(ops, st) == IF ops = <<>> THEN st ELSE ApplyOps(Tail(ops), ApplyOp(ops[
 \* ---- scanning.  A partition's objects are merged with the ImportComparator
 \* (sequence.go newObjectsScanner); the pushed-down filter is applied in the scan.
 PartRows(rows, part, desc, filter) ==
-  SelectSeq(StableSort(Concat([i \in 1..Len(part) |-> rows[part[i]]]), PoolC(desc)), LAMBDA r : Keep(filter, r))
+  SelectSeq(StableSort(Concat(E([i \in 1..Len(part) |-> rows[part[i]]])), PoolC(desc)), LAMBDA r : Keep(filter, r))
 
 \* the input of one consumer that received the partitions ps, in that order
 ScanStream(rows, ps, desc, filter, slicer) ==
-  Stream(Concat([i \in 1..Len(ps) |-> PartRows(rows, ps[i], desc, filter)]), slicer, IF slicer THEN PoolC(desc) ELSE NoCmp, TRUE)
+  Stream(Concat(E([i \in 1..Len(ps) |-> PartRows(rows, ps[i], desc, filter)])), slicer, IF slicer THEN PoolC(desc) ELSE NoCmp, TRUE)
 
 \* the Lister's range pruner for the pushed-down filter (optimizer newRangePruner,
 \* decided on min/max only): "k >= 2" prunes an object iff 2 > max.
@@ -520,13 +522,13 @@ MergeK(ss, c) ==          \* merge.Op: repeatedly the smallest head, ties to the
           IN <<ss[best][1]>> \o MergeK([ss EXCEPT ![best] = Tail(ss[best])], c)
 
 MergeStreams(sts, c) ==
-  LET ss     == [i \in 1..Len(sts) |-> sts[i].s]
+  LET ss     == E([i \in 1..Len(sts) |-> sts[i].s])
       sorted == \A i \in 1..Len(sts) : SortedBy(ss[i], c)
       cross  == \E i \in 1..Len(sts) : \E j \in i+1..Len(sts) : \E a \in 1..Len(ss[i]) : \E b \in 1..Len(ss[j]) : Cmp(c, ss[i][a], ss[j][b]) = 0
       allex  == \A i \in 1..Len(sts) : sts[i].ex
   IN Stream(MergeK(ss, c), sorted /\ allex /\ ~cross, IF sorted THEN c ELSE NoCmp, \A i \in 1..Len(sts) : sts[i].det)
 
-CombineStreams(sts) == Stream(Concat([i \in 1..Len(sts) |-> sts[i].s]), FALSE, NoCmp, \A i \in 1..Len(sts) : sts[i].det)
+CombineStreams(sts) == Stream(Concat(E([i \in 1..Len(sts) |-> sts[i].s])), FALSE, NoCmp, \A i \in 1..Len(sts) : sts[i].det)
 
 \* comparison of a result with the reference
 ClassesEq(s, t, c) == Len(s) = Len(t) /\ \A i \in 1..Len(s) : Cmp(c, s[i], t[i]) = 0
@@ -542,9 +544,9 @@ Mode(seq) == IF seq.ex THEN "exact" ELSE IF seq.by # NoCmp THEN "cls" ELSE "bag"
 \* the Lister / Slicer / leg state only.
 BOOL == {FALSE, TRUE}
 DescSet == {d = "desc" : d \in Dirs}
-PlanTab == [p \in Progs |-> [d \in DescSet |-> PlanOf(p, d)]]
-RowsTab == [l \in LayoutSet |-> [d \in DescSet |-> ObjRows(l, d)]]
-MetaTab == [l \in LayoutSet |-> [d \in DescSet |-> Metas(l, d)]]
+PlanTab == E([p \in Progs |-> E([d \in DescSet |-> PlanOf(p, d)])])
+RowsTab == E([l \in LayoutSet |-> E([d \in DescSet |-> ObjRows(l, d)])])
+MetaTab == E([l \in LayoutSet |-> E([d \in DescSet |-> Metas(l, d)])])
 
 \* lister.go initObjectScan: stable sort of the snapshot's objects.  Objects with
 \* identical [min,max] tie (the snapshot is a Go map, so their relative order is
@@ -557,9 +559,9 @@ InsertObj(o, t, m, d) ==
 RECURSIVE ListerSort(_, _, _)
 ListerSort(n, m, d) == IF n = 0 THEN <<>> ELSE InsertObj(n, ListerSort(n - 1, m, d), m, d)
 \* lorder by [layout][desc][is "k >= 2" pushed down]
-LorderTab == [l \in LayoutSet |-> [d \in DescSet |-> [wk \in BOOL |->
+LorderTab == E([l \in LayoutSet |-> E([d \in DescSet |-> E([wk \in BOOL |->
                 LET m == MetaTab[l][d]
-                IN SelectSeq(ListerSort(Len(l), m, d), LAMBDA o : ~(wk /\ CmpV(I(2), m[o].mx, TRUE) > 0))]]]
+                IN SelectSeq(ListerSort(Len(l), m, d), LAMBDA o : ~(wk /\ CmpV(I(2), m[o].mx, TRUE) > 0))])])])
 
 VARIABLES
   lay, desc, prog, nleg,   \* the case (constant along a behaviour)
@@ -588,14 +590,14 @@ LegOut(ps) == ApplyOps(plan.legs, LegInput(ps))
 \* number of values that reach the lifted head of a leg holding the partitions
 \* ps: the operators in front of it are per-row, only filters drop rows
 HeadFeed(pl, rw, ps) ==
-  LET lf == SelectSeq([i \in 1..Len(pl.legs) |-> pl.legs[i].op], LAMBDA o : Kind(o) = "filter")
+  LET lf == SelectSeq(E([i \in 1..Len(pl.legs) |-> pl.legs[i].op]), LAMBDA o : Kind(o) = "filter")
       n(o) == Cardinality({j \in 1..Len(rw[o]) : Keep(pl.filter, rw[o][j]) /\ Keep(lf, rw[o][j])})
-  IN SumSeq(Concat([i \in 1..Len(ps) |-> [j \in 1..Len(ps[i]) |-> n(ps[i][j])]]))
+  IN SumSeq(Concat(E([i \in 1..Len(ps) |-> E([j \in 1..Len(ps[i]) |-> n(ps[i][j])])])))
 
 Terminal == Exhausted \/ \A l \in LegSet : done[l]
 
 SeqResult ==
-  LET ps == IF plan.slicer THEN SlicerAll(meta, lorder, <<>>, NONE, NONE) ELSE [i \in 1..Len(lorder) |-> <<lorder[i]>>]
+  LET ps == IF plan.slicer THEN SlicerAll(meta, lorder, <<>>, NONE, NONE) ELSE E([i \in 1..Len(lorder) |-> <<lorder[i]>>])
       ops == Expand(prog)
   IN ApplyOps(Plain(SubSeq(ops, Len(plan.filter) + 1, Len(ops))), ScanStream(rows, ps, desc, plan.filter, plan.slicer))
 
@@ -606,8 +608,8 @@ Init ==
   /\ nleg \in LegCounts
   /\ lo = LorderTab[lay][desc][HasWK(PlanTab[prog][desc])]
   /\ stash = <<>> /\ smin = NONE /\ smax = NONE
-  /\ parts = [l \in 1..nleg |-> <<>>]
-  /\ done = [l \in 1..nleg |-> FALSE]
+  /\ parts = E([l \in 1..nleg |-> <<>>])
+  /\ done = E([l \in 1..nleg |-> FALSE])
   /\ served = <<>>
 
 \* One Lister.Pull / Slicer.Pull critical section by leg l.  Legs are
@@ -630,7 +632,7 @@ Spec == Init /\ [][Next]_vars
 
 \* ---------------------------------------------------------------- results
 ParResult ==
-  LET outs == [l \in LegSet |-> LegOut(parts[l])]
+  LET outs == E([l \in LegSet |-> LegOut(parts[l])])
       fan  == IF plan.fan = "merge" THEN MergeStreams(outs, plan.mc) ELSE CombineStreams(outs)
   IN ApplyOps(plan.tail, fan)
 
@@ -652,7 +654,7 @@ Handed == UNION {UNION {SeqRange(parts[l][i]) : i \in 1..Len(parts[l])} : l \in 
 \* every object is in exactly one place: still listed, stashed, or in exactly one partition of one leg
 HandedOnce ==
   /\ Handed \cup SeqRange(stash) \cup SeqRange(lo) = AllObjs
-  /\ Len(lo) + Len(stash) + SumSeq(Concat([l \in LegSet |-> [i \in 1..Len(parts[l]) |-> Len(parts[l][i])]])) = Len(lorder)
+  /\ Len(lo) + Len(stash) + SumSeq(Concat(E([l \in LegSet |-> E([i \in 1..Len(parts[l]) |-> Len(parts[l][i])])]))) = Len(lorder)
 
 \* Slicer: consecutive partitions have disjoint, increasing key spans (in pool direction)
 AllParts == SlicerAll(meta, lorder, <<>>, NONE, NONE)
@@ -664,33 +666,33 @@ PartitionsOrdered ==
      ELSE CmpV(Span(AllParts[i]).mx, Span(AllParts[i+1]).mn, TRUE) < 0
 \* the sequential scan through the Slicer is the pool in ImportComparator order
 SlicerSorted ==
-  plan.slicer => Concat([i \in 1..Len(AllParts) |-> PartRows(rows, AllParts[i], desc, <<>>)])
-                   = StableSort(Concat([i \in 1..Len(lorder) |-> rows[lorder[i]]]), PoolC(desc))
+  plan.slicer => Concat(E([i \in 1..Len(AllParts) |-> PartRows(rows, AllParts[i], desc, <<>>)]))
+                   = StableSort(Concat(E([i \in 1..Len(lorder) |-> rows[lorder[i]]])), PoolC(desc))
 InitInv == served = <<>> => PartitionsOrdered /\ SlicerSorted
 
 \* partial aggregation rows are combined exactly once: for a split count the
 \* final counts add up to the number of rows the legs scanned
 CountConserved ==
   (Terminal /\ Exhausted /\ plan.tail # <<>> /\ plan.tail[1].part = "in" /\ AggKind(plan.tail[1].op) = "count") =>
-     LET fin == ApplyOp(plan.tail[1], IF plan.fan = "merge" THEN MergeStreams([l \in LegSet |-> LegOut(parts[l])], plan.mc)
-                                      ELSE CombineStreams([l \in LegSet |-> LegOut(parts[l])]))
-     IN SumSeq([i \in 1..Len(fin.s) |-> fin.s[i]["a"].n]) = SumSeq([l \in LegSet |-> Len(LegInput(parts[l]).s)])
+     LET fin == ApplyOp(plan.tail[1], IF plan.fan = "merge" THEN MergeStreams(E([l \in LegSet |-> LegOut(parts[l])]), plan.mc)
+                                      ELSE CombineStreams(E([l \in LegSet |-> LegOut(parts[l])])))
+     IN SumSeq(E([i \in 1..Len(fin.s) |-> fin.s[i]["a"].n])) = SumSeq(E([l \in LegSet |-> Len(LegInput(parts[l]).s)]))
 
 CaseJson(seq, par) ==
-  LET rowj(r) == [f \in {g \in Fields : r[g].t # "abs"} |-> r[f]]
-  IN [lay |-> [i \in 1..Len(lay) |-> [j \in 1..Len(rows[i]) |-> rowj(rows[i][j])]],
-      loads |-> [i \in 1..Len(lay) |-> Len(lay[i])],
+  LET rowj(r) == E([f \in {g \in Fields : r[g].t # "abs"} |-> r[f]])
+  IN [lay |-> E([i \in 1..Len(lay) |-> E([j \in 1..Len(rows[i]) |-> rowj(rows[i][j])])]),
+      loads |-> E([i \in 1..Len(lay) |-> Len(lay[i])]),
       desc |-> desc, prog |-> prog, n |-> nleg, plan |-> PlanText(plan),
       lorder |-> lorder, 
-      served |-> [i \in 1..Len(served) |-> [leg |-> served[i][1], objs |-> served[i][2]]],
+      served |-> E([i \in 1..Len(served) |-> [leg |-> served[i][1], objs |-> served[i][2]]]),
       parts |-> parts,
-      seq |-> [rows |-> [i \in 1..Len(seq.s) |-> rowj(seq.s[i])], mode |-> Mode(seq), det |-> seq.det,
+      seq |-> [rows |-> E([i \in 1..Len(seq.s) |-> rowj(seq.s[i])]), mode |-> Mode(seq), det |-> seq.det,
                byf |-> seq.by.f, bydesc |-> seq.by.desc, bynmax |-> seq.by.nmax],
-      parrows |-> [i \in 1..Len(par.s) |-> rowj(par.s[i])],
+      parrows |-> E([i \in 1..Len(par.s) |-> rowj(par.s[i])]),
       taint |-> Taint]
 
-Hash == Len(served) + SumSeq([i \in 1..Len(served) |-> served[i][1] * i]) + Len(prog) * 7 + Len(lay) * 3 + nleg + (IF desc THEN 1 ELSE 0)
-           + SumSeq([i \in 1..Len(lorder) |-> lorder[i] * i]) + SumSeq([i \in 1..Len(lay) |-> Len(lay[i]) * i * 5])
+Hash == Len(served) + SumSeq(E([i \in 1..Len(served) |-> served[i][1] * i])) + Len(prog) * 7 + Len(lay) * 3 + nleg + (IF desc THEN 1 ELSE 0)
+           + SumSeq(E([i \in 1..Len(lorder) |-> lorder[i] * i])) + SumSeq(E([i \in 1..Len(lay) |-> Len(lay[i]) * i * 5]))
 
 \* Checked in every terminal state: the case is printed first (Emit) so that a
 \* counterexample is visible, then the property.
